@@ -279,6 +279,7 @@ fn run_receive(ctx: &RunCtx) -> RunOut {
         driver: Option<COut>,
         build_err: Option<String>,
     }
+    let ahead = if draw(4) == 3 { 1 + draw(2) } else { 0 };
     let rec: Rc<RefCell<Rec>> = Default::default();
     let gate = Rc::new(Gate::default());
     let written = Rc::new(std::cell::Cell::new(false));
@@ -293,6 +294,20 @@ fn run_receive(ctx: &RunCtx) -> RunOut {
                 exec::yield_now().await;
             }
             let mut n = net.lock().unwrap();
+            // one run in four: other uni streams are opened ahead of the control stream - one left idle (no byte,
+            // legal per RFC 9114 6.2, surfaced by an in-order transport together with the control stream) or a
+            // grease stream - the SETTINGS behind them must be applied all the same
+            match ahead {
+                1 => {
+                    n.raw_open_next(peer, true);
+                    obs::count("probe.idle_uni_stream_ahead_of_control");
+                }
+                2 => {
+                    let g = n.raw_open_next(peer, true);
+                    n.raw_write(g, peer, &varint::encode(0x21 + 0x1f * 5));
+                }
+                _ => {}
+            }
             let id = n.raw_open_next(peer, true);
             let mut b = varint_any_form(frames::ST_CONTROL);
             b.extend(frame_forms(frames::SETTINGS, &payload));
@@ -452,7 +467,7 @@ impl Check for C13 {
     fn meta(&self) -> Meta {
         Meta {
             level: "exploration",
-            rule: "send: the full product of builder options in systematic order (client: 3 booleans x 11 sizes; server: 4 booleans x 11 x 11 sizes; sizes {0,1,63,64,16383,16384,2^30-1,2^30,2^62-1,2^62,u64::MAX}; 2024 configurations, run index mod 2024) each set up over SimQuic with a drawn write schedule (partial acceptance down to 1 byte, pends, scarce stream credit) and parsed by the reference SETTINGS parser; receive: SETTINGS payloads (0-6 entries over known, unknown, grease and maximal ids, boolean and boundary values, all varint forms, in drawn order, with at most one deviation: repeated known id, repeated unknown id, HTTP/2-reserved id, truncated entry) delivered under drawn chunkings after a drawn delay to both roles; applied values read back through the settings accessors before (defaults) and after; non-trivial = every run; distinct = distinct schedule signatures",
+            rule: "send: the full product of builder options in systematic order (client: 3 booleans x 11 sizes; server: 4 booleans x 11 x 11 sizes; sizes {0,1,63,64,16383,16384,2^30-1,2^30,2^62-1,2^62,u64::MAX}; 2024 configurations, run index mod 2024) each set up over SimQuic with a drawn write schedule (partial acceptance down to 1 byte, pends, scarce stream credit) and parsed by the reference SETTINGS parser; receive: SETTINGS payloads (0-6 entries over known, unknown, grease and maximal ids, boolean and boundary values, all varint forms, in drawn order, with at most one deviation: repeated known id, repeated unknown id, HTTP/2-reserved id, truncated entry) delivered under drawn chunkings after a drawn delay to both roles, in one run in four behind an idle or a grease unidirectional stream opened first; applied values read back through the settings accessors before (defaults) and after; non-trivial = every run; distinct = distinct schedule signatures",
             real: &["h3 client/server builders, Config -> SETTINGS conversion and encoding, control stream setup", "SETTINGS decoding, validation and application (frame::Settings::decode, config::Settings::from, shared state)"],
             stub: &["QUIC transport (SimQuic)", "executor (simexec)", "peer (script, reference SETTINGS printer/parser)"],
             assumptions: &["a configured value that a varint cannot carry may be sent as 2^62-1 or refused by build() with an error, but must not panic", "a repeated unknown identifier may be ignored or rejected with H3_SETTINGS_ERROR"],
